@@ -7,7 +7,7 @@ from . import values as V
 FUNCS = ['pyg_base._dict:tree_items', 'pyg_base._dict:tree_keys', 'pyg_base._dict:tree_values', 'pyg_base._dict:items_to_tree', 'pyg_base._dict:_tree_setitem',
          'pyg_base._dict:tree_update', 'pyg_base._dict:tree_getitem', 'pyg_base._dict:tree_get', 'pyg_base._dict:tree_setitem', 'pyg_base._dict:Dict.__add__',
          'pyg_base._tree:tree_to_table', 'pyg_base._table_to_tree:table_to_tree', 'pyg_base._eq:in_']
-BOUNDS = dict(trees = 'every tree of depth <= 2 with 1..2 children per branch over keys a, b, c (and a key holding the path separator, v.1), branches of type dict / Dict; the shape is chosen by symbolic selectors; thorough adds depth 3 (round trip: leaves None / int; update: one side of depth 3 against the other of depth 2, root key sets not both of two keys)',
+BOUNDS = dict(trees = 'every tree of depth <= 2 with 1..2 children per branch over keys a, b, c (and a key holding the path separator, v.1), branches of type dict / Dict; the shape is chosen by symbolic selectors; thorough adds depth 3 (round trip: leaves None / int; update: one side of depth 3 (leaves None / int) against the other of depth 2, root key sets not both of two keys)',
               leaves = 'None | any int | string 2-pool | a 2-element list of ints', pairs = 'all pairs (t, u) of such trees incl. overlapping branches and leaf-vs-branch conflicts; ignore lists [None], [None, 0]',
               patterns = '1..4 wildcards, literal segments in between, tables of <= 2 rows with unique paths')
 OUTSIDE = ['trees deeper than 3 or wider than 2', 'empty branches (excluded by the statement)', 'non-string keys']
@@ -97,7 +97,7 @@ def h_update(depth, cls, ignore, depth_u = None):
     def h(c):
         import pyg_base as P
         # the merge only looks at t's structure, and at u's leaves only to see whether they are ignored: t's leaves are ints, u's None / int / list
-        t = tree(c, 't', depth, cls, kinds = ['int']); u = tree(c, 'u', depth_u or depth, dict, kinds = ['none', 'int'] if ignore else ['none', 'int', 'list'])
+        t = tree(c, 't', depth, cls, kinds = ['int']); u = tree(c, 'u', depth_u or depth, dict, kinds = ['none', 'int'] if (ignore or (depth_u or depth) >= 3) else ['none', 'int', 'list'])
         st, su = snapshot(t), snapshot(u)
         kw = dict(ignore = list(ignore)) if ignore else {}
         r = P.tree_update(t, u, **kw)
@@ -115,6 +115,22 @@ def h_update(depth, cls, ignore, depth_u = None):
                 c.check('Dict-plus-dict-is-the-same-merge', deq(r2, want) and same_snapshot(t, st) and same_snapshot(u, su))
     return h
 
+def h_update_shared(cls):
+    """a tree in which the very same branch object hangs under two keys: an update below one of them must not show below the other"""
+    def h(c):
+        import pyg_base as P
+        shared = cls(); shared['a'] = c.int('s.a', -5, 5)
+        if c.choice('s.two', 2): shared['b'] = c.int('s.b', -5, 5)
+        t = cls(); t['a'] = shared; t['b'] = shared
+        u = tree(c, 'u', 2, dict, kinds = ['none', 'int'])
+        st, su = snapshot(t), snapshot(u)
+        r = P.tree_update(t, u)
+        c.check('tree_update-is-the-recursive-merge-also-when-t-shares-a-branch-object', deq(r, merge(t, u)))
+        c.check('t-not-modified-at-any-depth', same_snapshot(t, st) and t['a'] is t['b'])
+        c.check('u-not-modified-at-any-depth', same_snapshot(u, su))
+        if cls is not dict: c.check('Dict-plus-dict-is-the-same-merge', deq(t + u, merge(t, u)) and same_snapshot(t, st))
+    return h
+
 PATTERNS = ['k/%x', '%x/%y', 'k/%x/w/%y', '%x/%y/%z', 'k/%x/%y/w/%z', '%x/%y/%z/%q']
 def h_table(pattern, nrows):
     def h(c):
@@ -126,7 +142,7 @@ def h_table(pattern, nrows):
         for i in range(nrows):
             row = {}
             for w in wild[:-1]: row[w] = c.pick('r%d.%s' % (i, w), ['p', 'q'])
-            row[wild[-1]] = V.scalar(c, 'r%d.leaf' % i, ['int', 'none', 'str'], strs = ['s'])
+            row[wild[-1]] = [c.int('r%d.l0' % i, -5, 5), 7][:c.choice('r%d.llen' % i, 3)] if c.choice('r%d.islist' % i, 2) else V.scalar(c, 'r%d.leaf' % i, ['int', 'none', 'str'], strs = ['s'])     # a list leaf (of 0..2 elements) is one leaf
             rows.append(row)
         keyof = lambda r: tuple(r[w] for w in wild[:-1])
         if len(set(keyof(r) for r in rows)) < len(rows): return           # rows must have unique paths
@@ -165,6 +181,9 @@ def obligations(tier):
                         for dt_, du_ in ((3, 2), (2, 3)):
                             obs.append(Ob('update%d%d.%s.%s.%s-%s' % (dt_, du_, cls.__name__, 'ign%d' % len(ign), ''.join(ks), ''.join(ku)), h_update(dt_, cls, ign, du_), pins = {'t.keys': i, 'u.keys': j},
                                           budget_s = 1500, max_paths = 200000, desc = 'the same with t of depth %d and u of depth %d (t a %s, ignore %s)' % (dt_, du_, cls.__name__, list(ign))))
+    for cls in (dict, Dict):
+        for j, ku in enumerate(shapes):
+            obs.append(Ob('update.shared-branch.%s.%s' % (cls.__name__, ''.join(ku)), h_update_shared(cls), pins = {'u.keys': j}, budget_s = 300, desc = 'tree_update on a tree whose two keys hold the very same branch object (u root keys %s)' % (ku,)))
     for p in PATTERNS:
         for n in (1, 2):
             obs.append(Ob('table.%s.%d' % (p.replace('/', '_').replace('%', ''), n), h_table(p, n), budget_s = 300, desc = 'table_to_tree / tree_to_table inverse for pattern %s, %d rows' % (p, n)))
